@@ -1,23 +1,21 @@
 #!/bin/bash
 # usage: tools/try_mutant.sh <patch.diff> <demo.py> <PROP> [more PROPs...]
-# 1. confirms in a scratch worktree that the test suite passes with the patch, the demo fails with it and passes without it
-# 2. applies the patch to /repo, runs the quick check(s), reverts /repo
+# Confirms in a scratch worktree that the test suite passes with the patch, the demo fails with it and passes without it; then runs
+# the quick check(s) against that worktree (VF_REPO) with evidence redirected, so /repo and /verif/evidence stay untouched.
 patch=$(readlink -f "$1"); demo=$(readlink -f "$2"); shift 2
 wt=/tmp/mv_$$
 git -C /repo worktree add -q $wt HEAD || exit 9
 cd $wt
 /venv/bin/python $demo >/dev/null 2>&1; d0=$?
 git apply $patch || { echo "PATCH DOES NOT APPLY"; cd /; git -C /repo worktree remove --force $wt; exit 9; }
-/venv/bin/python -m pytest -q -p no:cacheprovider -n 8 >/dev/null 2>&1; t=$?
+/venv/bin/python -m pytest -q -p no:cacheprovider -n 6 >/dev/null 2>&1; t=$?
 /venv/bin/python $demo >/dev/null 2>&1; d1=$?
-cd /; git -C /repo worktree remove --force $wt
 echo "confirm: demo_without=$d0 (want 0) tests_with=$t (want 0) demo_with=$d1 (want !=0)"
-if [ $d0 -ne 0 ] || [ $t -ne 0 ] || [ $d1 -eq 0 ]; then echo "MUTANT NOT CONFIRMED"; exit 8; fi
-git -C /repo apply $patch || exit 9
+if [ $d0 -ne 0 ] || [ $t -ne 0 ] || [ $d1 -eq 0 ]; then echo "MUTANT NOT CONFIRMED"; cd /; git -C /repo worktree remove --force $wt; exit 8; fi
 cd /verif
+mkdir -p $wt.ev
 for p in "$@"; do
-  out=$(./vf check $p --tier ${TIER:-quick} 2>&1); rc=$?
-  echo "check $p rc=$rc"; echo "$out" | grep -E "VIOLATION|violation|HARNESS|KNOWN|quick:|thorough:" | head -8
+  out=$(VF_REPO=$wt VF_EVIDENCE_DIR=$wt.ev ./vf check $p --tier ${TIER:-quick} 2>&1); rc=$?
+  echo "check $p rc=$rc"; echo "$out" | grep -E "VIOLATION|violation|HARNESS|KNOWN|quick:|thorough:" | cut -c1-400 | head -6
 done
-git -C /repo checkout -- .
-git -C /repo status --short | head -3
+cd /; git -C /repo worktree remove --force $wt; rm -rf $wt.ev
